@@ -1,7 +1,234 @@
 package main
 
-import "golang.org/x/tools/go/ssa"
+// Race mode (C15): happens-before analysis with vector clocks over every explored
+// schedule. Synchronisation operations of the native models create the happens-before
+// edges of the Go memory model (approximated conservatively: a channel or context carries
+// one clock, so extra ordering may be assumed - this can hide a race, never invent one).
+// Plain loads/stores/map operations executed by goat's own code are checked against the
+// previous conflicting accesses of the same cell.
 
-func (e *Engine) raceAccess(s *State, gi int, p Ptr, write bool, in ssa.Instruction) {}
+import (
+	"fmt"
+	"sort"
+	"strings"
+
+	"golang.org/x/tools/go/ssa"
+)
+
+type VC []int32
+
+func (v VC) get(i int) int32 {
+	if i < len(v) {
+		return v[i]
+	}
+	return 0
+}
+
+func vcJoin(a, b VC) VC {
+	n := len(a)
+	if len(b) > n {
+		n = len(b)
+	}
+	out := make(VC, n)
+	for i := range out {
+		x, y := a.get(i), b.get(i)
+		if x > y {
+			out[i] = x
+		} else {
+			out[i] = y
+		}
+	}
+	return out
+}
+
+type accessRec struct {
+	wg     int   // goroutine index of last write (-1 none)
+	wclk   int32
+	wsite  string
+	reads  map[int]int32 // goroutine -> clock of its last read since the last write
+	rsites map[int]string
+}
+
+type raceInfo struct {
+	gvc    map[int]VC         // per goroutine index
+	sync   map[string]VC      // per synchronisation object
+	access map[string]*accessRec
+}
+
+func (r *raceInfo) hashInto(h *hasher) {}
+
+func (r *raceInfo) clone() *raceInfo {
+	c := &raceInfo{gvc: make(map[int]VC, len(r.gvc)), sync: make(map[string]VC, len(r.sync)), access: make(map[string]*accessRec, len(r.access))}
+	for k, v := range r.gvc {
+		c.gvc[k] = v
+	}
+	for k, v := range r.sync {
+		c.sync[k] = v
+	}
+	for k, v := range r.access {
+		c.access[k] = v // records are replaced, never mutated in place
+	}
+	return c
+}
+
+func (e *Engine) raceInit(s *State) {
+	if e.raceMode && s.race == nil {
+		s.race = &raceInfo{gvc: map[int]VC{}, sync: map[string]VC{}, access: map[string]*accessRec{}}
+	}
+}
+
+func (r *raceInfo) vcOf(gi int) VC {
+	v := r.gvc[gi]
+	if v.get(gi) == 0 {
+		nv := make(VC, max(len(v), gi+1))
+		copy(nv, v)
+		nv[gi] = 1
+		r.gvc[gi] = nv
+		return nv
+	}
+	return v
+}
+
+func (r *raceInfo) tick(gi int) {
+	v := r.vcOf(gi)
+	nv := make(VC, max(len(v), gi+1))
+	copy(nv, v)
+	nv[gi]++
+	r.gvc[gi] = nv
+}
+
+// raceAcquire / raceRelease on a synchronisation object key
+func (e *Engine) raceAcquire(s *State, gi int, key string) {
+	if s.race == nil {
+		return
+	}
+	if v, ok := s.race.sync[key]; ok {
+		s.race.gvc[gi] = vcJoin(s.race.vcOf(gi), v)
+	}
+}
+
+func (e *Engine) raceRelease(s *State, gi int, key string) {
+	if s.race == nil {
+		return
+	}
+	s.race.sync[key] = vcJoin(s.race.sync[key], s.race.vcOf(gi))
+	s.race.tick(gi)
+}
+
+func (e *Engine) raceBoth(s *State, gi int, key string) {
+	e.raceAcquire(s, gi, key)
+	e.raceRelease(s, gi, key)
+}
+
+func (e *Engine) raceFork(s *State, parent, child int) {
+	if s.race == nil {
+		return
+	}
+	pv := s.race.vcOf(parent)
+	cv := make(VC, max(len(pv), child+1))
+	copy(cv, pv)
+	cv[child] = 1
+	s.race.gvc[child] = cv
+	s.race.tick(parent)
+}
+
+func ptrKey(p Ptr) string {
+	var sb strings.Builder
+	fmt.Fprintf(&sb, "%d", p.obj)
+	for _, x := range p.path {
+		fmt.Fprintf(&sb, ".%d", x)
+	}
+	return sb.String()
+}
+
+func (e *Engine) inGoatCode(s *State, gi int) (bool, string) {
+	g := s.gs[gi]
+	if len(g.frames) == 0 {
+		return false, ""
+	}
+	fr := g.frames[len(g.frames)-1]
+	if fr.fi.isHarness || !strings.HasPrefix(fr.fi.pkgPath, "github.com/avos-io/goat") || strings.Contains(fr.fi.pkgPath, "/gen/") {
+		return false, ""
+	}
+	return true, shortFn(fr.fi.name)
+}
+
+func (e *Engine) raceAccess(s *State, gi int, p Ptr, write bool, in ssa.Instruction) {
+	if s.race == nil || p.obj <= 0 || e.inInit {
+		return
+	}
+	ok, fn := e.inGoatCode(s, gi)
+	if !ok {
+		return
+	}
+	e.raceCell(s, gi, ptrKey(p), write, fn+" @ "+e.posOf(in))
+}
+
+func (e *Engine) raceMap(s *State, gi int, obj int, write bool, in ssa.Instruction) {
+	if s.race == nil || obj <= 0 || e.inInit {
+		return
+	}
+	ok, fn := e.inGoatCode(s, gi)
+	if !ok {
+		return
+	}
+	e.raceCell(s, gi, fmt.Sprintf("m%d", obj), write, fn+" @ "+e.posOf(in))
+}
+
+func (e *Engine) raceCell(s *State, gi int, key string, write bool, site string) {
+	r := s.race
+	vc := r.vcOf(gi)
+	rec := r.access[key]
+	report := func(otherG int, otherSite string, kind string) {
+		a, b := site, otherSite
+		if a > b {
+			a, b = b, a
+		}
+		label := kind + ": " + a + " <-> " + b
+		e.report(s, "race", label, a, "data race ("+kind+") between g"+s.gs[gi].id+" at "+site+" and g"+s.gs[otherG].id+" at "+otherSite, nil, nil)
+	}
+	if rec != nil {
+		if rec.wg >= 0 && rec.wg != gi && rec.wclk > vc.get(rec.wg) {
+			if write {
+				report(rec.wg, rec.wsite, "write-write")
+			} else {
+				report(rec.wg, rec.wsite, "read-write")
+			}
+		}
+		if write {
+			gs := make([]int, 0, len(rec.reads))
+			for g := range rec.reads {
+				gs = append(gs, g)
+			}
+			sort.Ints(gs)
+			for _, g := range gs {
+				if g != gi && rec.reads[g] > vc.get(g) {
+					report(g, rec.rsites[g], "read-write")
+				}
+			}
+		}
+	}
+	nr := &accessRec{wg: -1}
+	if rec != nil {
+		*nr = *rec
+	}
+	if write {
+		nr.wg, nr.wclk, nr.wsite = gi, vc.get(gi), site
+		nr.reads, nr.rsites = nil, nil
+	} else {
+		reads := make(map[int]int32, len(nr.reads)+1)
+		sites := make(map[int]string, len(nr.rsites)+1)
+		for k, v := range nr.reads {
+			reads[k] = v
+		}
+		for k, v := range nr.rsites {
+			sites[k] = v
+		}
+		reads[gi] = vc.get(gi)
+		sites[gi] = site
+		nr.reads, nr.rsites = reads, sites
+	}
+	r.access[key] = nr
+}
 
 func (e *Engine) raceVis(s *State, gi int, fr *Frame, in ssa.Instruction) *VisOp { return nil }
